@@ -422,12 +422,15 @@ def rule_n5(ck, prog, S):
         n0, l0 = a[0].strip_all_casts().get("path"), a[1].strip_all_casts().get("path")
         nm = a[2].strip_all_casts().get("path") or ""
         ln = a[3].strip_all_casts()
-        ok = (n0 == f.params[1]["name"] and l0 == f.params[2]["name"] and nm.endswith("].name") and ln.k == "CallExpr" and
+        # the row: an element `units[i]` or a row pointer walking the table `def`
+        row = nm[:-len(".name")] if nm.endswith("].name") else nm[:-len("->name")] if nm.endswith("->name") else None
+        ok = (n0 == f.params[1]["name"] and l0 == f.params[2]["name"] and row is not None and ln.k == "CallExpr" and
               ln.get("callee") in ("strlen", "__builtin_strlen") and C.call_args(ln)[0].strip_all_casts().get("path") == nm)
     if ok:
         # and the row returned is the row compared
         rets = [n for n in f.nodes.values() if n.k == "ReturnStmt" and n.ch and not C.is_null(n.child(0))]
-        same = rets and all((r.child(0).strip_all_casts().get("path") or "").replace("&", "") == nm[:-len(".name")] for r in rets)
+        same = rets and all((r.child(0).strip_all_casts().get("path") or "") == ("&" + row if nm.endswith("].name") else row)
+                            for r in rets)
         if same:
             ck.holds("C04-N5", st, K.loc(f, cs[0]), "compareStr(unit, len, row.name, strlen(row.name)); returns that row")
         else:
